@@ -39,7 +39,7 @@ def plan(tier, seed):
     return [dict(name=f"hist-{i}", i=i) for i in range(NSHARD)] + [dict(name="invalid-keys", kind="keys")]
 
 
-BAD_KEYS = ["a b", "ä", "a@b", "g/a b", "g/ä/x", "tab\tkey", "@"]
+BAD_KEYS = ["a b", "ä", "a@b", "g/a b", "g/ä/x", "tab\tkey", "@", "nl\n", "g/nl\n"]
 
 
 def check_lazy_big(cls_name, in_patch, rec):
